@@ -196,6 +196,13 @@ class RefState:
         return list(ops)
 
     def available(self, filters=()):
+        # the checks may pin the available list to the implementation's own
+        # answer where the property leaves the filter's exact choice open
+        # (dominated filter + zero durations); everything derived from it is
+        # still recomputed here
+        ov = getattr(self, "avail_override", None)
+        if ov is not None:
+            return list(ov)
         return self.apply_filters(filters, self.ready())
 
     def now(self, filters=()):
